@@ -231,7 +231,31 @@ def mk_config(S, **over):
              hex=S.bool("hex"), rev=S.bool("rev"), extension=None, severities=[], only=False, plid=None, src=None, bmcID=None,
              pelID=None, srcExcludeFile=None)
     f.update(over)
+    # attributes the Config class of the tree under test declares beyond the ones above: a boolean switch we do not know may
+    # be on or off (so that behaviour hidden behind a new flag is explored); anything else keeps its declared default
+    for name, default in extra_config_attrs().items():
+        if name not in f:
+            f[name] = S.bool("cfg_" + name) if isinstance(default, bool) else default
     return S.obj(PT + "config.Config", **f)
+
+
+def extra_config_attrs():
+    import ast as _ast
+    try:
+        ci = lookup_qualname(PT + "config.Config")
+        init = ci.find_method('__init__')
+        out = {}
+        for st in _ast.walk(init.node):
+            if isinstance(st, _ast.Assign) and len(st.targets) == 1 and isinstance(st.targets[0], _ast.Attribute) and \
+                    isinstance(st.targets[0].value, _ast.Name) and st.targets[0].value.id == 'self':
+                v = st.value
+                if isinstance(v, _ast.Constant):
+                    out[st.targets[0].attr] = v.value
+                elif isinstance(v, _ast.List) and not v.elts:
+                    out[st.targets[0].attr] = []
+        return out
+    except Exception:
+        return {}
 
 
 class CGetFileList(Contract):
